@@ -6,6 +6,9 @@ G(name, q, c, p)  == [name |-> name, q |-> q, c |-> c, p |-> p, par |-> FALSE]
 GP(name, q, c, p) == [name |-> name, q |-> q, c |-> c, p |-> p, par |-> TRUE]
 e0 == <<>>
 NoDev == {}
+DevPermSwap == {"perm-swap"}
+DevPermCtrl == {"perm-ctrl"}
+DevUpd == {"upd-special"}
 NewParamsC == [n \in ParamNames1 \cup ParamNames2 |->
                  IF n \in {"RX", "RY", "RZ", "RXX", "RYY", "RZZ", "CRX", "CRY", "CRZ"} THEN {<<2>>, <<6>>, <<4>>}
                  ELSE IF ParamArity(n) = 1 THEN {<<1>>, <<3>>, <<6>>}
@@ -47,6 +50,9 @@ GatesP3 == { G("H", <<0>>, e0, e0), G("T", <<2>>, e0, e0), G("CX", <<0, 2>>, e0,
              G("ISWAP", <<1, 2>>, e0, e0), G("R2A", <<2, 0>>, e0, e0), G("CZ", <<1, 0>>, e0, e0), G("IDEN", <<1>>, e0, e0),
              G("RY", <<1>>, e0, <<2>>), G("X", <<1>>, <<0>>, e0), G("CCX", <<0, 2, 1>>, e0, e0),
              G("SWAP", <<0, 1>>, e0, e0), G("SWAP", <<0, 2>>, e0, e0), G("X", <<1>>, <<2>>, e0), G("CX", <<0, 1>>, <<2>>, e0) }
+GatesP3q == { G("H", <<0>>, e0, e0), G("T", <<2>>, e0, e0), G("CX", <<0, 2>>, e0, e0), G("CX", <<2, 0>>, e0, e0),
+              G("R2A", <<2, 1>>, e0, e0), G("IDEN", <<1>>, e0, e0), G("X", <<1>>, <<0>>, e0), G("CCX", <<0, 2, 1>>, e0, e0),
+              G("SWAP", <<0, 1>>, e0, e0), G("SWAP", <<0, 2>>, e0, e0) }
 QueriesP3 == { QDense(FALSE), QAmp(<<1, 0, 1>>), QExp("P01", <<2>>), QExp("E0110", <<2, 0>>) }
 
 =============================================================================
